@@ -7,7 +7,9 @@
   C18.3  Alignment-string grammar: writer template "(" ref "," qry ")"  <->  reader strip/split literals and
          (reference, query) unpack order, for both pair parsers
   C18.4  zero-record file: the reader guards the empty frame (shared with C07.G2)
-Declined: value round-trip (truncation to int, two decimals, coordinate lookup).
+  C18.7  the record parser converts ids, coordinates and lengths by plain truncation: int(<column value>) (through
+         float() or math.trunc at most), never round()/ceil()/+0.5; confidence, orientation and HitEnum are passed on as read
+Declined: value round-trip as a whole (two decimals of the confidence, coordinate lookup values).
 """
 from __future__ import annotations
 
@@ -23,6 +25,42 @@ from ..rules import role as R
 from .c02 import column_table, entry_id
 
 
+INT_FIELDS = 8     # query id, reference id, 4 coordinates, 2 lengths
+
+
+def truncation(ck):
+    p = ck.ctx.p
+    fn = p.find_method("BionanoAlignment", "parse")
+    params = {pp.name for pp in fn.call_params()}
+    rets = [pa for pa in explore(ck, fn, inline=2) if pa.outcome == "return"]
+    if len(rets) != 1 or rets[0].value[0] != "new":
+        raise AnalysisError(f"{fn.where}: BionanoAlignment.parse is expected to return one BionanoAlignment(...)")
+    w = where(fn, rets[0].node)
+    n = 0
+    for field, t in rets[0].value[2]:
+        leaf = [x for x in T.subterms(t) if x[0] == "v" and x[1] in params]
+        if t[0] == "v":
+            continue                      # passed on as read
+        names = {x[1] for x in T.subterms(t) if x[0] == "call"} | {x[2] for x in T.subterms(t) if x[0] == "mcall"}
+        inner = t
+        steps = []
+        while inner[0] == "call" and len(inner[2]) == 1 and not inner[3]:
+            steps.append(inner[1])
+            inner = inner[2][0]
+        rounding = names & {"round", "ceil", "floor", "rint", "around"} or any(x[0] == "poly" for x in T.subterms(t))
+        plain = inner[0] == "v" and steps and steps[0] in ("int", "trunc", "math.trunc") and set(steps[1:]) <= {"float"}
+        if plain:
+            n += 1
+            ck.ok("C18.7", f"BionanoAlignment.parse:{field}", w, "converted by truncation", T.show(t)[:80])
+        elif rounding:
+            n += 1
+            ck.violation("C18.7", f"BionanoAlignment.parse:{field}", w, "the value read back is rounded or shifted, not truncated: a "
+                         "written coordinate x.6 comes back as x+1", found=T.show(t)[:120], required=f"int({leaf[0][1] if leaf else field})")
+        else:
+            raise AnalysisError(f"{w}: conversion of field {field} not recognised: {T.show(t)[:160]}")
+    ck.floor("C18.7 integer fields converted in BionanoAlignment.parse", n, INT_FIELDS)
+
+
 def run(ck):
     ck.clause("C18.1", "writer header / record / reader column tables agree (as C02.1, C02.2)")
     ck.clause("C18.2", "framing: separators, comment prefix, header prefix, header=False")
@@ -30,8 +68,10 @@ def run(ck):
     ck.clause("C18.4", "reader returns [] for a zero-record file")
     ck.clause("C18.5", "without id filters every record is parsed, in file order (no row is dropped, merged or re-ordered)")
     ck.clause("C18.6", "pair coordinates are looked up in the map whose id matches the record (as C10.2)")
+    ck.clause("C18.7", "ids, coordinates and lengths are converted by plain int() truncation when a record is parsed")
     ctx = ck.ctx
     p = ctx.p
+    truncation(ck)
     w = extract_writer(ck)
     r = extract_reader(ck)
     column_table(ck, w, r, "C18.1")
